@@ -52,8 +52,9 @@ Definition history_of (es : list (@event pkt payload)) : reg_history * time :=
 (** an output that moves a payload for identity [id] *)
 Definition flows_for (id : ident) (o : @output pkt payload) : Prop :=
   match o with
-  | OForwarded _ x _ => x = id
-  | OEncrypted _ x _ => x = id
+  | OIncoming _ x (Some _) _ => x = id        (* a payload delivered to the SCION side *)
+  | OIncoming _ x None (_ :: _) => x = id     (* queued outbound payloads sent towards the client *)
+  | OEncrypted _ x _ => x = id                (* an outbound payload taken into the tunnel *)
   | _ => False
   end.
 Definition registers (id : ident) (e : @event pkt payload) : Prop :=
@@ -62,8 +63,39 @@ Definition registers (id : ident) (e : @event pkt payload) : Prop :=
 (** executable forms for the run-time oracle *)
 Definition flows_forb (id : ident) (o : @output pkt payload) : bool :=
   match o with
-  | OForwarded _ x _ => x =? id
+  | OIncoming _ x (Some _) _ => x =? id
+  | OIncoming _ x None (_ :: _) => x =? id
   | OEncrypted _ x _ => x =? id
   | _ => false
   end.
 End Traces.
+
+(** * WireGuard as an oracle: the single hypothesis *)
+Section WGSpec.
+Variables (wg pkt payload : Type).
+Variable wg_new : ident -> wg.
+Variable wg_in : wg -> pkt -> wg * option payload * list pkt.
+Variable wg_out : wg -> payload -> wg * option pkt.
+Variable wg_tick : wg -> wg * bool.
+
+(** endpoint states reachable from the endpoint created for peer static key [x] *)
+Inductive Reach (x : ident) : wg -> Prop :=
+| R_new : Reach x (wg_new x)
+| R_in w p : Reach x w -> Reach x (fst (fst (wg_in w p)))
+| R_out w pl : Reach x w -> Reach x (fst (wg_out w pl))
+| R_tick w : Reach x w -> Reach x (fst (wg_tick w)).
+
+(** [authentic p x]: datagram [p] was produced with the private key of static identity [x].
+    THE hypothesis on WireGuard: an endpoint created for peer static key x yields a decrypted
+    payload only for datagrams authenticated by x. *)
+Definition wg_authenticates (authentic : pkt -> ident -> Prop) : Prop :=
+  forall x w p w' pl sent, Reach x w -> wg_in w p = (w', Some pl, sent) -> authentic p x.
+
+(** every tunnel of the server is an endpoint created for its recorded peer identity *)
+Definition tunnels_sound (s : @state wg) : Prop :=
+  forall a t, tunnels s a = Some t -> Reach (peer_static t) (tunn t).
+End WGSpec.
+
+(** the toy endpoint of Model_C09 satisfies the hypothesis *)
+Definition toy_authentic (p : toy_pkt) (x : ident) : Prop :=
+  match p with TData f _ => f = x | _ => False end.
